@@ -36,6 +36,8 @@ GROUPS = {
              'diff', 'taylor', 'nsum_geom', 'limit'],
     'hyp': ['hyp0f1', 'hyp1f1', 'hyp2f1', 'hyp2f1_out', 'hyp1f2', 'hyp2f0', 'hyp3f2', 'hyper', 'legendre', 'chebyt', 'hermite',
             'laguerre', 'jacobi', 'besselj', 'bessely', 'besseli', 'besselk', 'erf', 'gammainc', 'expint', 'ellipk', 'ellipe', 'agm'],
+    'rational': ['zeta_rat_tuple', 'hyper_rat_tuple', 'hyp1f1_rat_tuple', 'hyp2f1_rat_tuple', 'besselj_half', 'hyp1f1_half', 'besselj', 'hyp1f1',
+                 'legenp', 'hermite_r', 'gegenbauer'],
     'rules': ['invertlaplace_deg', 'invertlaplace_sin', 'invertlaplace', 'quad_method', 'quadosc', 'nsum_levin', 'nsum', 'sumem', 'chebyfit', 'fourier',
               'polyroots', 'findroot_solver', 'pade', 'gauss_quadrature'],
     'bess': ['airyai', 'airybi', 'airyai_d', 'airyaizero', 'coulombf', 'coulombg', 'coulombc', 'besseljzero', 'besselyzero', 'struveh',
@@ -704,7 +706,8 @@ class _Gen(object):
     def memo_steps(self, steps):
         r = self.rng
         if self.memo is None:
-            mk = {'kind': 'call', 'actor': 'mp', 'op': 'f:memoize', 'args': [catalogue.CB(r.choice(['gammaf', 'zetaf', 'kwf', 'expneg']), r.randint(1, 3), 2)],
+            mk = {'kind': 'call', 'actor': 'mp', 'op': 'f:memoize',
+                  'args': [catalogue.CB(r.choice(['gammaf', 'zetaf', 'kwf', 'expneg', 'tuplef', 'matf', 'listf', 'matf']), r.randint(1, 3), 2)],
                   'id': self.new_id()}
             steps.append(mk)
             self.memo = {'mk': mk, 'xs': [catalogue.real_spec(r, -2, 3, sign=0, cfg={'nostr': True, 'maxwidth': 64}) for _ in range(2)]}
@@ -728,6 +731,15 @@ class _Gen(object):
             self.nfault += 1
         self.memo['calls'] = self.memo.get('calls', 0) + 1
         steps.append(st)
+        if 'fault' not in st and self.memo['mk']['args'][0]['name'] in ('matf', 'listf') and r.random() < 0.5:
+            # the caller edits the object it was handed (its own, it may think) and asks again
+            key = {'t': 'tuple', 'v': [I(0), I(0)]} if self.memo['mk']['args'][0]['name'] == 'matf' else I(0)
+            steps.append({'kind': 'call', 'actor': 'mp', 'op': 'setitem:', 'id': self.new_id(),
+                          'args': [{'t': 'obj', 'i': st['id']}, key, {'t': 'frac', 'v': [r.randint(-60, 60), 2]}]})
+            again = json.loads(json.dumps(st))
+            again['id'] = self.new_id()
+            again['rel'] = 'equal'
+            steps.append(again)
         if 'fault' in st:
             steps.append({'kind': 'reassert', 'id': self.new_id()})
             retry = json.loads(json.dumps(st))
